@@ -38,7 +38,9 @@ ASSUMPTIONS = [
 BANKTYPES = ["checking", "savings", "moneymrkt", "creditline"]
 FLAG = {"checking": "-C", "savings": "-S", "moneymrkt": "-M", "creditline": "-L", "creditcard": "-c", "investment": "-i"}
 _AL = "ABCDEFGHIJKLMNOPQRSTUVWXYZabcdefghijklmnopqrstuvwxyz0123456789"
-ACCT = st.builds(lambda a, b: a + b, st.sampled_from(_AL), st.text(_AL + "-", min_size=0, max_size=9))
+_ACCT_PLAIN = st.builds(lambda a, b: a + b, st.sampled_from(_AL), st.text(_AL + "-", min_size=0, max_size=9))
+# card- and IBAN-style grouping: an account id may contain single blanks
+ACCT = st.one_of(_ACCT_PLAIN, _ACCT_PLAIN, _ACCT_PLAIN, st.sampled_from(["3782 822463 10005", "DE89 3704 0044 0532", "12 34", "A B"]))
 PASSWORD = "pw-for-c19"
 
 
